@@ -21,7 +21,7 @@ LEVEL = 'exploration'
 RULE = ('a case is one schedule for one adapter: (adapter in {Axi2Reg, Reg2Axi}, register width W in {8,32,64} plus {12,33} for the '
         'ceil in the KEEP mask and {65,96,128,200,256,512}, stream width in {W rounded up to bytes, 64, 128, 256, 512} (for W>64: 128/256/512, Axi2Reg also with the register wider than the stream word), 200 (quick) / 400-1000 (thorough) cycles of '
         'ap_start/ap_reset/ap_done-wish/load_outs/peer VALID or READY/data, and a build history: adapter alone before the first getSimulator(), '
-        'or (30%) added directly / one / two levels down to a system whose simulator already exists and has run, then getSimulator() again); and a driver: bench around clk(1) with a passive Simulator listener that applies the per-cycle clauses to what a listener sees, or (30%) a listener that does all poking and judging from inside clk(n), n up to 40; plus one composition per index: 2-3 HWSystems with one adapter each, all inputs applied first, then every simulator clocked once, in same/reverse/rotating/random order; schedules are concatenations of phases (idle, '
+        'or (30%) added directly / one / two levels down to a system whose simulator already exists and has run, then getSimulator() again); and a driver: bench around clk(1) with a passive Simulator listener that applies the per-cycle clauses to what a listener sees, or (30%) a listener that does all poking and judging from inside clk(n), n up to 40; plus, for every second index, a kernel built by createHILVitis itself around a 1-32 bit DUT whose Reg2Axi is judged by the same clauses (load_outs observed, fed by the input adapter); plus one composition per index: 2-3 HWSystems with one adapter each, all inputs applied first, then every simulator clocked once, in same/reverse/rotating/random order; schedules are concatenations of phases (idle, '
         'back-to-back burst, back-pressure stall, control storm, load storm, random with per-schedule rates) so that bursts, stalls, '
         'load-while-pending and reset/done mid-transfer occur; ap_done is granted only under the environment assumption. Every cycle '
         'evaluates all clauses of the adapter (one evaluation per cycle). Non-trivial = the schedule contains back-pressure while '
@@ -376,6 +376,11 @@ class R2A:
             ev['valid_hold_checked'] += 1
             if not post_tvalid:
                 raise Bad('valid_dropped', dict(ctx=ctx), t, 1, 0, 'tvalid fell without acceptance or reset (cycle inputs: %s)' % ctx)
+        if reset:
+            ev['reset_edges'] += 1
+            if post_tvalid:
+                raise Bad('valid_after_reset', dict(ctx=ctx, pending=pre_tvalid), t, 0, 1,
+                          'tvalid=1 after an edge with ap_reset high: "... until a beat is accepted or it is reset" (%s)' % ctx)
         if post_tvalid and not pre_tvalid:
             ev['valid_rises'] += 1
         self.comb('after the edge')
@@ -396,6 +401,57 @@ class R2A:
             self.m_active = 0
         elif start:
             self.m_active = 1
+
+
+class _Shim:
+    def __init__(self, fn):
+        self.put = fn
+
+
+class R2AHil(R2A):
+    """The Reg2Axi that createHILVitis builds around a DUT (one Axi2Reg per DUT input, load_outs = its loaded flag, one Reg2Axi
+    per DUT output, ap_reset = not ap_rst_n).  Same clause set; load_outs is not poked but observed (it is driven by the input
+    side, which is fed from the schedule's load column as the peer VALID of the input stream)."""
+
+    def __init__(self, plan, ev):
+        import py4hw
+        import py4hw.emulation.vitiswrapping as hil
+        from .common import run_dir
+        self.plan, self.ev = plan, ev
+        self.W = plan['W']
+        dsys = py4hw.HWSystem()
+        dut = py4hw.Buf(dsys, 'dut', dsys.wire('a', self.W), dsys.wire('r', self.W))
+        with run_dir() as d:
+            plt = hil.createHILVitis(dut, d + '/hil')
+        platform = plt.platform
+        w, k = platform._wires, platform.children['rtl_kernel_example']._wires
+        import types
+        self.st = types.SimpleNamespace(tvalid=w['axis01_tvalid'], tready=w['axis01_tready'], tdata=w['axis01_tdata'],
+                                        tlast=w['axis01_tlast'], tkeep=w['axis01_tkeep'])
+        self.load_outs = k['load_outs']
+
+        def feed(v):
+            w['axis00_tvalid'].put(v)
+        self.s = dict(start=w['ap_start'], reset=_Shim(lambda v: w['ap_rst_n'].put(1 - v)), done=w['ap_done'], load=_Shim(feed),
+                      reg_in=k['out0'], sent=k['sent0'], active=k['reg2axi_active0'])
+        self.in_data = w['axis00_tdata']
+        self.sim = platform.getSimulator()
+        self.mW = (1 << self.W) - 1
+        self.keep_mask = (1 << math.ceil(self.W / 8)) - 1
+        self.m_active = 0
+        self.latest = None
+        self.completed = 0
+        self.applied = []
+        self.prev_accept = False
+        self.t = 0
+        self.cur = None
+
+    def begin(self, t):
+        R2A.begin(self, t)
+        self.in_data.put(self.applied[t][5])
+        # the load pulse this adapter sees in cycle t is what the input side drives now (a function of registers only)
+        self.ev['hil_load_outs_high'] += self.load_outs.get()
+        self.applied[t][3] = self.load_outs.get()
 
 
 # --------------------------------------------------------------------------- who drives, who looks
@@ -429,6 +485,8 @@ class _Driving:
 
 
 def _monitor(plan, ev):
+    if plan.get('built_by') == 'createHILVitis':
+        return R2AHil(plan, ev)
     return (A2R if plan['dut'] == 'axi2reg' else R2A)(plan, ev)
 
 
@@ -534,6 +592,7 @@ def run_check(run, tier, seed, shard):
     run.assume('environment: ap_done only in a cycle where, since the last ap_start/ap_reset, a beat completed while active and no beat is '
                'pending (Reg2Axi: tvalid low); everything else is free per cycle')
     run.assume('Axi2Reg: a reset, done or restart in the same cycle as a beat wins (state cleared); while loaded q must equal the latest beat, while not loaded q must be 0 ("clears them": the word is cleared with the flag)')
+    run.assume('Reg2Axi: after an edge with ap_reset high VALID is low ("until a beat is accepted or it is reset")')
     run.assume('Reg2Axi, weakest reading: VALID may stay high after an acceptance (counted as peer_accepts_while_inactive / '
                'back_to_back_accepts, never a violation); "accepted beat" for sent = tvalid & tready & active; only the low W bits of tdata '
                'are judged; active follows start/reset/done with reset and done winning over start (same shadow for both adapters)')
@@ -544,6 +603,8 @@ def run_check(run, tier, seed, shard):
             for slot in range(3):
                 jobs.append((k, dut, slot))
         jobs.append((k, 'lockstep', 0))
+        if k % 2 == 0:
+            jobs.append((k, 'hil', 0))
     if shard is not None:
         jobs = [j for i, j in enumerate(jobs) if i % shard[1] == shard[0]]
     deadline = time.time() + (400 if tier == 'quick' else 2400)
@@ -559,6 +620,11 @@ def run_check(run, tier, seed, shard):
         if dut == 'lockstep':
             plan = gen_lockstep(rnd, ncyc)
             subs = plan['lockstep']
+        elif dut == 'hil':
+            # system level: the kernel is built by createHILVitis itself around a W-bit DUT (W <= 32), 64-bit streams
+            plan = gen_schedule(rnd, 'reg2axi', rnd.choice([1, 8, 12, 16, 24, 32]), ncyc)
+            plan.update(dw=64, hist=None, built_by='createHILVitis')
+            subs = [plan]
         else:
             plan = gen_schedule(rnd, dut, WIDTHS[(k * 3 + slot) % len(WIDTHS)], ncyc)
             subs = [plan]
@@ -587,6 +653,8 @@ def run_check(run, tier, seed, shard):
             run.ev(ev['cycles'])
             run.count('schedules_' + d_)
             run.count('schedules_drive_' + sub['drive'])
+            if sub.get('built_by'):
+                run.count('schedules_kernel_built_by_createHILVitis')
             if sub.get('hist'):
                 run.count('schedules_adapter_added_to_running_system')
                 run.count('schedules_adapter_added_at_depth_%d' % sub['hist']['depth'])
@@ -606,7 +674,7 @@ def run_check(run, tier, seed, shard):
     run.extra['reg2axi_events'] = dict(tot['reg2axi'])
     run.extra['schedules_per_configuration'] = per_w
     run.extra['peer_accepts_while_inactive'] = int(tot['reg2axi']['peer_accepts_while_inactive'])
-    for need in ('schedules_adapter_added_to_running_system', 'schedules_drive_listener', 'compositions_lockstep'):
+    for need in ('schedules_adapter_added_to_running_system', 'schedules_drive_listener', 'compositions_lockstep', 'schedules_kernel_built_by_createHILVitis'):
         if shard is None and not run.violations and not run.counters.get(need):
             run.inconclusive.append('no run of the class %s' % need)
     if shard is None and not run.violations:
@@ -620,7 +688,7 @@ def run_check(run, tier, seed, shard):
 
 
 def post_merge(run, tier, seed):
-    for need in ('schedules_adapter_added_to_running_system', 'schedules_drive_listener', 'compositions_lockstep'):
+    for need in ('schedules_adapter_added_to_running_system', 'schedules_drive_listener', 'compositions_lockstep', 'schedules_kernel_built_by_createHILVitis'):
         if not run.violations and not run.counters.get(need):
             run.inconclusive.append('no run of the class %s' % need)
     for dut, keys in (('axi2reg_events', ('beats', 'beat_and_clear_same_cycle')), ('reg2axi_events', ('beats_accepted', 'valid_hold_checked', 'sent_rises'))):
